@@ -6,6 +6,8 @@ From Dimod Require Model.Adj Model.AdjSubstAll Proofs.AdjSubstAllFacts.
 From Dimod Require Gen.Gen_PyBQM Model.PyBqm Proofs.PyBqmFacts Model.IsingQubo Proofs.IsingQuboFacts.
 From Dimod Require Model.Samples Proofs.SamplesFacts Model.SSet Model.SSetVartype Proofs.SSetVartypeFacts.
 From Dimod Require Model.ViewOps Proofs.ViewOpsFacts Model.HPolyPy Proofs.HPolyPyFacts Model.Expr Proofs.ExprFacts Model.VartypeOps Proofs.VartypeOpsFacts.
+From Dimod Require Gen.Gen_CppVartype Proofs.CppVartypeFacts Gen.Gen_SSetVartype Proofs.SSetVartypeGenFacts.
+From Dimod Require Gen.Gen_IsingQubo Model.IsingQuboGen Proofs.IsingQuboGenFacts Model.FlipMarks Proofs.FlipMarksFacts.
 Import ListNotations.
 Open Scope Qc_scope.
 
@@ -573,6 +575,273 @@ Theorem C02_cqm_flip_variable_py_energy :
         existsb (Nat.eqb v) (Expr.e_vars (Expr.mc_e k)))) (Expr.m_cons q) (Expr.m_cons q').
 Proof. exact VartypeOpsFacts.py_cqm_flip_variable_energy. Qed.
 Print Assumptions C02_cqm_flip_variable_py_energy.
+
+
+(* ---------- the constants and multiplier formulas of the C++ / Cython models are the ones in the source:
+   extracted fail-closed by translators/cpp_vartype_constants.py into Gen/Gen_CppVartype.v; every statement is by
+   unfolding only, so a changed literal in abc.h, binary_quadratic_model.h, quadratic_model.h,
+   constrained_quadratic_model.h or cyconstrained.pyx breaks this file ---------- *)
+Theorem C02_substitute_variables_uses_source_formulas :
+  forall (mult c : Qc) (m : Adj.qm),
+  AdjSubstAll.substitute_variables mult c m =
+  (let
+   '(l1, o1) := AdjSubstAll.sv_pass1 mult c (Adj.lin m) (Adj.off m) in
+    let
+    '(l2, a2, o2) :=
+     AdjSubstAll.sv_pass2 (Gen_CppVartype.gen_sv_quad_mp mult c)
+       (Gen_CppVartype.gen_sv_lin_quad_mp mult c) (Gen_CppVartype.gen_sv_quad_offset_mp mult c) l1
+       (Adj.adj m) o1 in {| Adj.lin := l2; Adj.adj := a2; Adj.off := o2; Adj.vts := Adj.vts m |}).
+Proof. exact CppVartypeFacts.substitute_variables_uses_source_formulas. Qed.
+Print Assumptions C02_substitute_variables_uses_source_formulas.
+
+Theorem C02_bqm_change_vartype_uses_source_constants :
+  forall (t : vartype) (m : Adj.qm),
+  AdjSubstAll.bqm_change_vartype t m =
+  (if AdjSubstAll.bqm_same_vartype t m
+   then m
+   else
+    match t with
+    | BINARY =>
+        AdjSubstAll.set_all_vts BINARY
+          (AdjSubstAll.substitute_variables (fst Gen_CppVartype.gen_bqm_to_binary)
+             (snd Gen_CppVartype.gen_bqm_to_binary) m)
+    | SPIN =>
+        AdjSubstAll.set_all_vts SPIN
+          (AdjSubstAll.substitute_variables (fst Gen_CppVartype.gen_bqm_to_spin)
+             (snd Gen_CppVartype.gen_bqm_to_spin) m)
+    | _ => m
+    end).
+Proof. exact CppVartypeFacts.bqm_change_vartype_uses_source_constants. Qed.
+Print Assumptions C02_bqm_change_vartype_uses_source_constants.
+
+Theorem C02_qm_spin_to_binary_uses_source_constants :
+  forall (v : nat) (q : VartypeOps.qmi),
+  VartypeOps.qm_spin_to_binary_at v q =
+  VartypeOps.qi_upd_info v BINARY
+    (fun _ : Expr.minfo =>
+     {|
+       Expr.i_vt := BINARY;
+       Expr.i_lb := CppVartypeFacts.lb4 Gen_CppVartype.gen_qm_spin_to_binary;
+       Expr.i_ub := CppVartypeFacts.ub4 Gen_CppVartype.gen_qm_spin_to_binary
+     |})
+    (VartypeOps.qi_with_m q
+       (Adj.substitute_variable v (CppVartypeFacts.mult4 Gen_CppVartype.gen_qm_spin_to_binary)
+          (CppVartypeFacts.off4 Gen_CppVartype.gen_qm_spin_to_binary) (VartypeOps.q_m q))).
+Proof. exact CppVartypeFacts.qm_spin_to_binary_uses_source_constants. Qed.
+Print Assumptions C02_qm_spin_to_binary_uses_source_constants.
+
+Theorem C02_qm_binary_to_spin_uses_source_constants :
+  forall (v : nat) (q : VartypeOps.qmi),
+  VartypeOps.qm_binary_to_spin_at v q =
+  VartypeOps.qi_upd_info v SPIN
+    (fun _ : Expr.minfo =>
+     {|
+       Expr.i_vt := SPIN;
+       Expr.i_lb := CppVartypeFacts.lb4 Gen_CppVartype.gen_qm_binary_to_spin;
+       Expr.i_ub := CppVartypeFacts.ub4 Gen_CppVartype.gen_qm_binary_to_spin
+     |})
+    (VartypeOps.qi_with_m q
+       (Adj.substitute_variable v (CppVartypeFacts.mult4 Gen_CppVartype.gen_qm_binary_to_spin)
+          (CppVartypeFacts.off4 Gen_CppVartype.gen_qm_binary_to_spin) (VartypeOps.q_m q))).
+Proof. exact CppVartypeFacts.qm_binary_to_spin_uses_source_constants. Qed.
+Print Assumptions C02_qm_binary_to_spin_uses_source_constants.
+
+Theorem C02_cqm_spin_to_binary_uses_source_constants :
+  forall (v : nat) (q : Expr.mcqm),
+  VartypeOps.cqm_spin_to_binary_at v q =
+  VartypeOps.cq_upd_info v
+    (fun _ : Expr.minfo =>
+     {|
+       Expr.i_vt := BINARY;
+       Expr.i_lb := CppVartypeFacts.lb4 Gen_CppVartype.gen_cqm_spin_to_binary;
+       Expr.i_ub := CppVartypeFacts.ub4 Gen_CppVartype.gen_cqm_spin_to_binary
+     |})
+    (Expr.cqm_substitute v (CppVartypeFacts.mult4 Gen_CppVartype.gen_cqm_spin_to_binary)
+       (CppVartypeFacts.off4 Gen_CppVartype.gen_cqm_spin_to_binary) q).
+Proof. exact CppVartypeFacts.cqm_spin_to_binary_uses_source_constants. Qed.
+Print Assumptions C02_cqm_spin_to_binary_uses_source_constants.
+
+Theorem C02_cqm_binary_to_spin_uses_source_constants :
+  forall (v : nat) (q : Expr.mcqm),
+  VartypeOps.cqm_binary_to_spin_at v q =
+  VartypeOps.cq_upd_info v
+    (fun _ : Expr.minfo =>
+     {|
+       Expr.i_vt := SPIN;
+       Expr.i_lb := CppVartypeFacts.lb4 Gen_CppVartype.gen_cqm_binary_to_spin;
+       Expr.i_ub := CppVartypeFacts.ub4 Gen_CppVartype.gen_cqm_binary_to_spin
+     |})
+    (Expr.cqm_substitute v (CppVartypeFacts.mult4 Gen_CppVartype.gen_cqm_binary_to_spin)
+       (CppVartypeFacts.off4 Gen_CppVartype.gen_cqm_binary_to_spin) q).
+Proof. exact CppVartypeFacts.cqm_binary_to_spin_uses_source_constants. Qed.
+Print Assumptions C02_cqm_binary_to_spin_uses_source_constants.
+
+Theorem C02_cqm_flip_variable_uses_source_constants :
+  forall (v : nat) (q : Expr.mcqm),
+  VartypeOps.cqm_flip_variable v q =
+  match VartypeOps.cq_vartype q v with
+  | BINARY =>
+      Some
+        (Expr.cqm_substitute v (fst Gen_CppVartype.gen_cqm_flip_binary)
+           (snd Gen_CppVartype.gen_cqm_flip_binary) q)
+  | SPIN =>
+      Some
+        (Expr.cqm_substitute v (fst Gen_CppVartype.gen_cqm_flip_spin)
+           (snd Gen_CppVartype.gen_cqm_flip_spin) q)
+  | _ => None
+  end.
+Proof. exact CppVartypeFacts.cqm_flip_variable_uses_source_constants. Qed.
+Print Assumptions C02_cqm_flip_variable_uses_source_constants.
+
+
+(* ---------- SampleSet.change_vartype: sample maps, widening rule and statement order extracted fail-closed by
+   translators/sampleset_vartype.py; the failure path (a refused conversion leaves rows and vartype untouched, the energies
+   already shifted - an observation, the property does not promise atomicity) ---------- *)
+Theorem C02_sampleset_to_spin_map_uses_source_constants :
+  forall x : Qc,
+  SSetVartype.to_spin_value x =
+  fst Gen_SSetVartype.gen_ss_to_spin * x + snd Gen_SSetVartype.gen_ss_to_spin.
+Proof. exact SSetVartypeGenFacts.to_spin_value_uses_source_constants. Qed.
+Print Assumptions C02_sampleset_to_spin_map_uses_source_constants.
+
+Theorem C02_sampleset_to_binary_map_uses_source_constants :
+  forall x : Qc,
+  SSetVartype.to_binary_value x = SSetVartype.floor_div2 (x + fst Gen_SSetVartype.gen_ss_to_binary) /\
+  half = / snd Gen_SSetVartype.gen_ss_to_binary.
+Proof. exact SSetVartypeGenFacts.to_binary_value_uses_source_constants. Qed.
+Print Assumptions C02_sampleset_to_binary_map_uses_source_constants.
+
+Theorem C02_sampleset_storage_is_widened :
+  Gen_SSetVartype.gen_ss_widens_bool = true /\ Gen_SSetVartype.gen_ss_widens_unsigned = true.
+Proof. exact SSetVartypeGenFacts.storage_is_widened. Qed.
+Print Assumptions C02_sampleset_storage_is_widened.
+
+Theorem C02_sampleset_energy_shift_order :
+  forall (target : vartype) (off : Qc) (s : SSet.sset),
+  Gen_SSetVartype.gen_ss_energy_shift_first = true /\
+  (forall s' : SSet.sset,
+   SSetVartype.ss_change_vartype target off s = SSet.Fail s' -> s' = SSetVartype.ss_shift_energy off s) /\
+  (vartype_eqb target (SSet.vt s) = true ->
+   SSetVartype.ss_change_vartype target off s = SSet.Ok (SSetVartype.ss_shift_energy off s)).
+Proof. exact SSetVartypeGenFacts.energy_shift_order. Qed.
+Print Assumptions C02_sampleset_energy_shift_order.
+
+Theorem C02_sampleset_change_vartype_fail_state :
+  forall (target : vartype) (off : Qc) (s s' : SSet.sset),
+  SSetVartype.ss_change_vartype target off s = SSet.Fail s' ->
+  s' = SSetVartype.ss_shift_energy off s /\
+  SSet.vt s' = SSet.vt s /\
+  target <> SSet.vt s /\
+  SSet.rws s' = map (fun r : SSet.row => SSet.set_en r (SSet.en r + off)) (SSet.rws s).
+Proof. exact SSetVartypeFacts.ss_change_vartype_fail_state. Qed.
+Print Assumptions C02_sampleset_change_vartype_fail_state.
+
+Theorem C02_sampleset_change_vartype_ok_iff :
+  forall (target : vartype) (off : Qc) (s : SSet.sset),
+  (exists s' : SSet.sset, SSetVartype.ss_change_vartype target off s = SSet.Ok s') <->
+  target = SSet.vt s \/ target = SPIN /\ SSet.vt s = BINARY \/ target = BINARY /\ SSet.vt s = SPIN.
+Proof. exact SSetVartypeFacts.ss_change_vartype_ok_iff. Qed.
+Print Assumptions C02_sampleset_change_vartype_ok_iff.
+
+
+(* ---------- round 2: ising_to_qubo / qubo_to_ising over the factors generated from utilities.py
+   (translators/ising_qubo_constants.py); the python flip_variable loops of QM and BQM; discrete markers under flips ---------- *)
+Theorem C02_ising_to_qubo_uses_source_constants :
+  forall (h : IsingQubo.hdict) (J : IsingQubo.qdict) (off : Qc),
+  IsingQubo.ising_to_qubo h J off = IsingQuboGen.ising_to_qubo_g h J off.
+Proof. exact IsingQuboGenFacts.ising_to_qubo_uses_source_constants. Qed.
+Print Assumptions C02_ising_to_qubo_uses_source_constants.
+
+Theorem C02_qubo_to_ising_uses_source_constants :
+  forall (Q : IsingQubo.qdict) (off : Qc),
+  IsingQubo.qubo_to_ising Q off = IsingQuboGen.qubo_to_ising_g Q off.
+Proof. exact IsingQuboGenFacts.qubo_to_ising_uses_source_constants. Qed.
+Print Assumptions C02_qubo_to_ising_uses_source_constants.
+
+Theorem C02_ising_to_qubo_generated_energy :
+  forall (h : list (nat * Qc)) (J : list (nat * nat * Qc)) (off : Qc) (x : sample),
+  NoDup (map fst h) ->
+  NoDup (map fst J) ->
+  IsingQuboFacts.no_self_key J ->
+  IsingQuboFacts.binary_valued x ->
+  IsingQubo.qubo_energy (fst (IsingQuboGen.ising_to_qubo_g h J off))
+    (snd (IsingQuboGen.ising_to_qubo_g h J off)) x =
+  IsingQubo.ising_energy h J off (fun v : nat => two * x v - 1).
+Proof. exact IsingQuboGenFacts.ising_to_qubo_g_energy. Qed.
+Print Assumptions C02_ising_to_qubo_generated_energy.
+
+Theorem C02_qubo_to_ising_generated_energy :
+  forall (Q : list (nat * nat * Qc)) (off : Qc) (s : sample),
+  NoDup (map fst Q) ->
+  IsingQuboFacts.spin_valued s ->
+  IsingQubo.ising_energy (fst (fst (IsingQuboGen.qubo_to_ising_g Q off)))
+    (snd (fst (IsingQuboGen.qubo_to_ising_g Q off))) (snd (IsingQuboGen.qubo_to_ising_g Q off)) s =
+  IsingQubo.qubo_energy Q off (fun v : nat => (s v + 1) * half).
+Proof. exact IsingQuboGenFacts.qubo_to_ising_g_energy. Qed.
+Print Assumptions C02_qubo_to_ising_generated_energy.
+
+Theorem C02_qm_flip_variable_loop_energy :
+  forall (vt : vartype) (v : nat) (p p' : poly) (s : sample),
+  FlipMarksFacts.NoSelfLoop v (p_quad p) ->
+  FlipMarks.py_flip_variable vt v p = Some p' ->
+  energy p' s = energy p (upd s v (VartypeOps.flip_value vt (s v))).
+Proof. exact FlipMarksFacts.py_flip_variable_energy. Qed.
+Print Assumptions C02_qm_flip_variable_loop_energy.
+
+Theorem C02_qm_flip_variable_loop_coefficients :
+  forall (vt : vartype) (v : nat) (p p' : poly),
+  FlipMarksFacts.NoSelfLoop v (p_quad p) ->
+  FlipMarks.py_flip_variable vt v p = Some p' ->
+  p_off p' = p_off (FlipMarksFacts.flip_spec vt v p) /\
+  (forall x : nat, lin_coeff (p_lin p') x = lin_coeff (p_lin (FlipMarksFacts.flip_spec vt v p)) x) /\
+  (forall x y : nat,
+   quad_coeff (p_quad p') x y = quad_coeff (p_quad (FlipMarksFacts.flip_spec vt v p)) x y) /\
+  (forall n : nat, poly_coeff_eqb n p' (FlipMarksFacts.flip_spec vt v p) = true).
+Proof. exact FlipMarksFacts.py_flip_variable_coeffs. Qed.
+Print Assumptions C02_qm_flip_variable_loop_coefficients.
+
+Theorem C02_qm_flip_variable_none_iff :
+  forall (vt : vartype) (v : nat) (p : poly),
+  FlipMarks.py_flip_variable vt v p = None <-> vt <> SPIN /\ vt <> BINARY.
+Proof. exact FlipMarksFacts.py_flip_variable_none_iff. Qed.
+Print Assumptions C02_qm_flip_variable_none_iff.
+
+Theorem C02_bqm_flip_variable_loop_energy :
+  forall (vt : vartype) (v : nat) (p p' : poly) (s : sample),
+  FlipMarksFacts.NoSelfLoop v (p_quad p) ->
+  FlipMarks.py_bqm_flip_variable vt v p = Some p' ->
+  energy p' s = energy p (upd s v (VartypeOps.flip_value vt (s v))).
+Proof. exact FlipMarksFacts.py_bqm_flip_variable_energy. Qed.
+Print Assumptions C02_bqm_flip_variable_loop_energy.
+
+Theorem C02_qm_flip_variable_involutive :
+  forall (vt : vartype) (v : nat) (p p1 p2 : poly) (s : sample),
+  FlipMarksFacts.NoSelfLoop v (p_quad p) ->
+  FlipMarksFacts.NoSelfLoop v (p_quad p1) ->
+  FlipMarks.py_flip_variable vt v p = Some p1 ->
+  FlipMarks.py_flip_variable vt v p1 = Some p2 -> energy p2 s = energy p s.
+Proof. exact FlipMarksFacts.py_flip_variable_involutive. Qed.
+Print Assumptions C02_qm_flip_variable_involutive.
+
+Theorem C02_cqm_flip_discrete_cleared :
+  forall (v : nat) (q q' : Expr.mcqm) (j : nat) (k : Expr.mcon),
+  ExprFacts.CqmInv q ->
+  VartypeOps.py_cqm_flip_variable v q = Some q' ->
+  nth_error (Expr.m_cons q) j = Some k ->
+  nth j (FlipMarks.discrete_view q) false = true ->
+  In v (Expr.e_vars (Expr.mc_e k)) ->
+  nth j (FlipMarks.marks_view q') true = false /\ nth j (FlipMarks.discrete_view q') true = false.
+Proof. exact FlipMarksFacts.py_cqm_flip_discrete_cleared. Qed.
+Print Assumptions C02_cqm_flip_discrete_cleared.
+
+Theorem C02_cqm_flip_marks_elsewhere :
+  forall (v : nat) (q q' : Expr.mcqm) (j : nat) (k : Expr.mcon),
+  ExprFacts.CqmInv q ->
+  VartypeOps.py_cqm_flip_variable v q = Some q' ->
+  nth_error (Expr.m_cons q) j = Some k ->
+  ~ In v (Expr.e_vars (Expr.mc_e k)) -> nth j (FlipMarks.marks_view q') false = Expr.mc_mark k.
+Proof. exact FlipMarksFacts.py_cqm_flip_marks_elsewhere. Qed.
+Print Assumptions C02_cqm_flip_marks_elsewhere.
 
 
 Example C02_example :
